@@ -319,10 +319,21 @@ def micro_c07_blocked_repayment(r) -> Dict[str, Any]:
         "BTC/USD@3": closing,
         "BTC/USD@4": [{"op": "query"}],
     }
-    return {"class": "micro_c07", "symbols": {"BTC": 4, "USD": 2}, "pairs": [["BTC", "USD"]], "explicit_pair_info": [],
-            "early_lookup": False, "fee": None, "liq": {"limit": "25", "impact": "0"},
-            "lend": {"quote": "USD", "default": cond, "per_symbol": {}}, "max_concurrent": 50, "bars": {"BTC/USD": bars},
-            "init": {"USD": _s(p0 * amt / 2), "BTC": "0"}, "actions": actions, "on_order_event": [], "jobs": []}
+    sc = {"class": "micro_c07", "symbols": {"BTC": 4, "USD": 2}, "pairs": [["BTC", "USD"]], "explicit_pair_info": [],
+          "early_lookup": False, "fee": None, "liq": {"limit": "25", "impact": "0"},
+          "lend": {"quote": "USD", "default": cond, "per_symbol": {}}, "max_concurrent": 50, "bars": {"BTC/USD": bars},
+          "init": {"USD": _s(p0 * amt / 2), "BTC": "0"}, "actions": actions, "on_order_event": [], "jobs": []}
+    if r.random() < 0.4:
+        # the interest is charged in a third symbol of which the account holds nothing: the principal is affordable,
+        # the repayment is not
+        sc["symbols"]["ETH"] = 3
+        sc["pairs"].append(["ETH", "USD"])
+        sc["bars"]["ETH/USD"] = [flat(t, 50, 1000) for t in range(1, 6)]
+        sc["init"]["ETH"] = "0"
+        cond.update({"interest_symbol": "ETH", "pct": r.choice(["10", "40"]), "period_s": 0, "min": r.choice(["0", "0.001"])})
+        if r.random() < 0.5:
+            actions["BTC/USD@3"] = [{"op": "cancel", "among": "open", "pick": 0}]
+    return sc
 
 
 def micro_c07_scenario(r) -> Dict[str, Any]:
